@@ -383,3 +383,17 @@ def exact(ctx, prog):
     su = ctx.fa(f"{BM}.setup")
     ok = any(norm_text(x) == "in_blobfiles_dir = await self.loop.run_in_executor(None, get_files_in_blob_dir)" for x in su.stmts(ast.Assign))
     ctx.ob("C18-D5/EXACT", ok, su.site(), "scan: the scan result is what setup reconciles", func=su.fi.qualname)
+    gb = ctx.fa(f"{BM}._get_blob")
+    h = gb.fi.params()[1]
+    cond = f"self.config.save_blobs or (is_valid_blobhash({h}) and os.path.isfile(os.path.join(self.blob_dir, {h})))"
+    rets = gb.stmts(ast.Return)
+    bf = [r for r in rets if norm_text(r.value).startswith("BlobFile(")]
+    bb_ = [r for r in rets if norm_text(r.value).startswith("BlobBuffer(")]
+    ifs = [x for x in gb.stmts(ast.If)]
+    ok = len(bf) == 1 and len(bb_) == 1 and len(ifs) == 1 and R.same_test(ifs[0].test, cond) and bf[0] in ifs[0].body
+    ctx.ob("C18-D5/EXACT", ok, gb.site(), "a blob whose file is in the blob directory is represented by a file-backed object even when new blobs are kept in memory only (save_blobs off): "
+           "only a file-backed object can verify the file and be recorded finished at restart", detail="" if ok else (norm_text(ifs[0].test) if ifs else ""), func=gb.fi.qualname,
+           key="C18-D5/EXACT|_get_blob")
+    for r in bf + bb_:
+        ok = f"{h}, " in norm_text(r.value) and "self.blob_completed, self.blob_dir" in norm_text(r.value)
+        ctx.ob("C18-D5/EXACT", ok, gb.site(r), "…built for the requested hash, in the blob directory, reporting completion to this manager", func=gb.fi.qualname)
